@@ -17,4 +17,5 @@ for f in ${1:-mutants/*.diff}; do
   echo "| $name | $prop | $suite | $v |" >> $OUT
   rm -rf $SCR
 done
+[ -z "$1" ] && [ -f mutants/NOTES.md ] && cat mutants/NOTES.md >> $OUT
 echo done >> $OUT.log
